@@ -59,7 +59,7 @@ pub fn snap<T: Elem, Tr: ?Sized + TrX, M: MemBuilder>(v: &AnyVec<Tr, M>) -> Snap
 }
 
 /// does real id `r` match the model value?
-fn mv_match(m: Mv, r: u16) -> bool {
+pub fn mv_match(m: Mv, r: u16) -> bool {
     match m { Mv::Id(x) => x == r, Mv::CloneOf(p) => elem::parent_of(r) == Some(p) }
 }
 
@@ -571,6 +571,11 @@ impl<T: Elem + SatisfyTraits<Tr>, M: MX, Tr: TrX + ?Sized> Runner for Cfg<T, M, 
             Edge::Clear(api) => w.do_clear(api, &mut out),
             Edge::Get(api, k, i) => w.do_get(api, k, ix(i), &mut out),
             Edge::IterAll(api, k) => w.do_iter_all(api, k, &mut out),
+            Edge::Drain { api, a, b, form, pat, sink } => w.do_drain(api, ix(a), ix(b), form, pat, sink, &mut out),
+            Edge::Splice { api, a, b, form, pat, sink, rn, rsrc, lie } => w.do_splice(api, ix(a), ix(b), form, pat, sink, rn as usize, rsrc, lie, &mut out),
+            Edge::DrainOverflow(api, o) => w.do_range_overflow(api, o, false, &mut out),
+            Edge::SpliceOverflow(api, o) => w.do_range_overflow(api, o, true, &mut out),
+            Edge::IterProto { api, kind, pat, clone_at } => w.do_iter_proto(api, kind, pat, clone_at, &mut out),
             _ => { out.fail(Class::Machinery, "unimplemented-edge", format!("{e:?}")); }
         }
         elem::with_reg(|r| { r.fault_at = 0; });
